@@ -1252,7 +1252,7 @@ fn raw_trace(id: u64, r: &mut Rng, sum: &mut Summary, log: &mut CaseLog) -> Stri
                 // the property's own oracle: capacity
                 if size > cap && !cap_reported {
                     cap_reported = true;
-                    let class = if cap == 0 && size == 1 { "capacity-zero-holds-one-entry" } else { "capacity-exceeded" };
+                    let class = "capacity-exceeded";
                     sum.finding(class, id, format!("QueryResultCache::new({}) holds {} entries after an insert", cap, size), json!({"cap": cap, "size": size, "trace": printable}));
                 }
             }
@@ -1596,7 +1596,7 @@ fn main() {
             }
             // capacity oracle on the replica's real cache
             for (rp, cap) in [(&rep_a, hist.cap), (&rep_c, hist.cap_crate)] {
-                if rp.max_size > cap.max(1) {
+                if rp.max_size > cap {
                     sum.finding("capacity-exceeded", id_a, format!("cache of capacity {} reached size {}", cap, rp.max_size), case_json(texts.len() - 1));
                 }
             }
